@@ -184,6 +184,38 @@ ASSUMPTIONS_COMMON = [
 # ------------------------------------------------------------------------------------------ workers
 
 def run_worker(argv, env, outdir, tag, timeout):
+    """Runs one shard. A shard that gave up on a case (per-case watchdog, exit 98) is resumed behind
+    that case up to 3 times, so that one hanging case does not hide what the later cases show."""
+    parts = []
+    cur_argv, cur_tag = list(argv), tag
+    for attempt in range(4):
+        w = _run_worker_once(cur_argv, env, outdir, cur_tag, timeout)
+        parts.append(w)
+        if w["rc"] != 98 or w["last_case"] is None or attempt == 3:
+            break
+        try:
+            shard = int(argv[argv.index("--shard") + 1])
+            nsh = int(argv[argv.index("--nshards") + 1])
+        except (ValueError, IndexError):
+            break
+        cur_argv = [a for a in argv] + ["--first", str(w["last_case"] + nsh - shard)]
+        cur_tag = "%s-r%d" % (tag, attempt + 1)
+    if len(parts) == 1:
+        return parts[0]
+    # merge: the shard counts as abnormal (first abnormal part decides), reports are combined
+    first_bad = next((p for p in parts if not (p["rc"] == 0 and p["finished"])), parts[-1])
+    merged = dict(first_bad)
+    reps = [p["report"] for p in parts if p["report"] is not None]
+    if reps:
+        m = merge(reps)
+        merged["report"] = {"evaluations": m["evaluations"], "nontrivial": sorted(m["nontrivial"]), "counters": m["counters"], "maxima": m["maxima"],
+                            "sets": {k: sorted(v) for k, v in m["sets"].items()}, "samples": m["samples"], "violations": m["violations"], "known": m["known"]}
+    merged["stderr"] = "\n".join(p["stderr"][-3000:] for p in parts)
+    merged["wall"] = sum(p["wall"] for p in parts)
+    return merged
+
+
+def _run_worker_once(argv, env, outdir, tag, timeout):
     out = os.path.join(outdir, tag + ".json")
     journal = os.path.join(outdir, tag + ".journal")
     errf = os.path.join(outdir, tag + ".stderr")
@@ -211,6 +243,16 @@ def run_worker(argv, env, outdir, tag, timeout):
             report = json.load(open(out))
         except Exception:
             report = None
+    if report is None and os.path.exists(out + ".violations"):
+        # the worker died before writing its report: keep the violations it had found until then
+        vs = []
+        for line in open(out + ".violations"):
+            try:
+                vs.append(json.loads(line))
+            except Exception:
+                pass
+        if vs:
+            report = {"evaluations": 0, "nontrivial": [], "counters": {}, "maxima": {}, "sets": {}, "samples": [], "violations": vs, "known": []}
     last_case, finished = None, False
     if os.path.exists(journal):
         lines = open(journal).read().split()
@@ -244,6 +286,11 @@ def classify_abnormal(w):
             if "unsupported operation" in mark:
                 return "inconclusive", text
             return "violation", text
+    if "CASE-TIMEOUT" in err or w["rc"] == 98:
+        # a single case did not come back (wall clock, generous): for C10 a construction that does
+        # not return on a valid collection is a refuting event; elsewhere it only means that the
+        # property could not be evaluated
+        return "hang", "a case did not finish within the per-case wall-clock limit"
     if w["timed_out"]:
         return "inconclusive", "watchdog timeout"
     rc = w["rc"]
@@ -434,6 +481,8 @@ def run_rust_property(prop, tier, seed):
             reports.append(w["report"])
             continue
         kind, text = classify_abnormal(w)
+        if kind == "hang":
+            kind = "violation" if prop == "C10" else "inconclusive"
         tail = "\n".join(w["stderr"].splitlines()[-60:])
         if kind == "violation":
             sanitizer_reports += 1
